@@ -53,3 +53,6 @@ let decompress (alg : BinNums.coq_N) data : Byte.byte list option =
   let a = ask (Printf.sprintf "unz %s %s" (n2s alg) (hx data)) in
   if a = "FAIL" || a = "UNSUPPORTED" then None
   else Some (bytes_of_hex (Stdlib.String.sub a 2 (Stdlib.String.length a - 2)))
+
+let hashrep (id : BinNums.coq_N) prefix unit (n : BinNums.coq_N) : Byte.byte list =
+  let c = Printf.sprintf "hashrep %s %s %s %s" (n2s id) (hx prefix) (hx unit) (n2s n) in expect_hex c (ask c)
